@@ -232,24 +232,26 @@ pub fn ev_bin<S: Src>(s: &mut S, lo: u8, hi: u8, bits: u32) {
     s.role(H_C05_BIN, op as u32);
     let mut a = s.i64();
     let mut b = s.i64();
-    if bits < 64 {
-        // narrow operands (sign-extended from `bits`), or one of the boundary values of the
-        // 64-bit range - so that overflow corners stay inside the quick tier
-        let sh = 64 - bits;
+    if bits == 8 {
+        // "edge" mode: each operand is a boundary value of the 64-bit range or a small
+        // (sign-extended 8-bit) value - keeps the overflow corners inside the quick tier
         let edge = |sel: u8| -> i64 {
             match sel {
                 0 => i64::MIN,
                 1 => i64::MAX,
-                2 => -1,
-                3 => i64::MIN + 1,
-                4 => 1i64 << 62,
+                2 => i64::MIN + 1,
+                3 => 1i64 << 62,
                 _ => -(1i64 << 62),
             }
         };
-        let ea = s.below(7);
-        let eb = s.below(7);
-        a = if ea < 6 { edge(ea) } else { (a << sh) >> sh };
-        b = if eb < 6 { edge(eb) } else { (b << sh) >> sh };
+        let ea = s.below(6);
+        let eb = s.below(6);
+        a = if ea < 5 { edge(ea) } else { (a << 56) >> 56 };
+        b = if eb < 5 { edge(eb) } else { (b << 56) >> 56 };
+    } else if bits < 64 {
+        let sh = 64 - bits;
+        a = (a << sh) >> sh;
+        b = (b << sh) >> sh;
     }
     let e = boxed_bin(Expr::Const(a), bin_at(op), Expr::Const(b));
     let ctx = Ctx::plain();
